@@ -134,7 +134,7 @@ func splitTags(s string) ([]string, string) {
 }
 
 var clauseKinds = map[string]bool{"requires": true, "ensures": true, "invariant": true, "modifies": true, "sets": true,
-	"havoc": true, "decreases": true, "flags": true, "results": true, "assert": true, "cases": true, "exempt": true, "check": true}
+	"havoc": true, "decreases": true, "flags": true, "results": true, "assert": true, "cases": true, "exempt": true, "check": true, "local": true}
 
 // splitTopLevelArgs splits "a S1, b S2" respecting parentheses.
 func splitTop(s string, sep byte) []string {
@@ -548,6 +548,16 @@ func parseClause(c *Clause) error {
 	case "check":
 		// check <discipline>: the function is verified for an engine-level discipline (e.g. "check locks")
 		c.Names = strings.Fields(text)
+		return nil
+	case "local":
+		// local <name> = result [k] of <callee> [#n]   |   local <name> = accumulator [#n]
+		// A description of the local variable a clause names, used to find it again when it has been renamed.
+		i := strings.Index(text, "=")
+		if i < 0 {
+			return fail(fmt.Errorf("local name = description"))
+		}
+		c.Names = []string{strings.TrimSpace(text[:i])}
+		c.Text = strings.TrimSpace(text[i+1:])
 		return nil
 	case "exempt":
 		// exempt <schema clause label>: <reason>   (the schema clause of that label is not claimed for this function)
